@@ -103,11 +103,10 @@ func Regenerate(repo, name, tmp string) (Files, error) {
 	if err != nil {
 		return res, err
 	}
-	o := &compiler.Options{
-		Outfile:      filepath.Join(dst, "contract.nef"),
-		ManifestFile: filepath.Join(dst, "manifest.json"),
-		BindingsFile: filepath.Join(dst, "bindings_config.yml"),
-	}
+	nefPath := filepath.Join(dst, "contract.nef")
+	manifestPath := filepath.Join(dst, "manifest.json")
+	bindCfgPath := filepath.Join(dst, "bindings_config.yml")
+	o := &compiler.Options{Outfile: nefPath, ManifestFile: manifestPath, BindingsFile: bindCfgPath}
 	o.Name = conf.Name
 	o.SourceURL = conf.SourceURL
 	o.ContractEvents = conf.Events
@@ -122,10 +121,10 @@ func Regenerate(repo, name, tmp string) (Files, error) {
 	if _, err := compiler.CompileAndSave(src, o); err != nil {
 		return res, fmt.Errorf("compile: %w", err)
 	}
-	if res.Nef, err = os.ReadFile(o.Outfile); err != nil {
+	if res.Nef, err = os.ReadFile(nefPath); err != nil {
 		return res, err
 	}
-	if res.Manifest, err = os.ReadFile(o.ManifestFile); err != nil {
+	if res.Manifest, err = os.ReadFile(manifestPath); err != nil {
 		return res, err
 	}
 	// generate-rpcwrapper
@@ -134,7 +133,7 @@ func Regenerate(repo, name, tmp string) (Files, error) {
 		return res, err
 	}
 	cfg := binding.NewConfig()
-	bs, err := os.ReadFile(o.BindingsFile)
+	bs, err := os.ReadFile(bindCfgPath)
 	if err != nil {
 		return res, err
 	}
